@@ -332,6 +332,9 @@ func (c *converter) trackIngress(ingList []*networking.Ingress) {
 				c.tracker.TrackNames(convtypes.ResourceIngress, name, ctx, hatypes.DefaultHost)
 			}
 		}
+		if port > 0 {
+			c.tracker.TrackNames(convtypes.ResourceIngress, name, ctx, tcpPortLink(normalizeHostname("", port)))
+		}
 		for _, rule := range ing.Spec.Rules {
 			c.tracker.TrackNames(convtypes.ResourceIngress, name, ctx, normalizeHostname(rule.Host, port))
 			if rule.HTTP != nil {
@@ -385,6 +388,12 @@ func normalizeHostname(hostname string, port int) string {
 		return hostname + ":" + strconv.Itoa(port)
 	}
 	return hostname
+}
+
+// tcpPortLink returns the name that links all the ingress resources of
+// the tcp port of hostname, which is not the name of any tcp service
+func tcpPortLink(hostname string) string {
+	return hostname[strings.LastIndex(hostname, ":"):]
 }
 
 func sortIngress(ingress []*networking.Ingress) {
@@ -760,6 +769,9 @@ func (c *converter) addTCPService(source *annotations.Source, hostname string, a
 	tcpPort, tcpHost := c.haproxy.TCPServices().AcquireTCPService(hostname)
 	// track also if already assigned, the service should be updated if its current owner leaves
 	c.tracker.TrackNames(source.Type, source.FullName(), convtypes.ResourceHATCPService, hostname)
+	// port scoped configuration keys are merged from all the ingress of the same tcp port, so
+	// they are all linked to the port: a partial sync should parse all of them, or none
+	c.tracker.TrackNames(source.Type, source.FullName(), convtypes.ResourceHATCPService, tcpPortLink(hostname))
 	if !tcpHost.Backend.IsEmpty() {
 		tcpservice := strings.TrimPrefix(hostname, hatypes.DefaultHost)
 		return nil, fmt.Errorf("tcp service %s was already assigned to %s", tcpservice, tcpHost.Backend)
